@@ -14,6 +14,8 @@ from vf.rt import assume, pick, conc, cb, notrace
 from vf.stubs import MiniLoop, NullLogger
 from props.chanlib import mkchan
 
+from props.C08 import write_pause
+
 ASSUMPTIONS = [
     'the data stream is concrete (distinct bytes); what is symbolic is how it is cut into chunks, whether the reader task gets to run between '
     'arrivals, the read size, EOF / connection loss and their position; regular expressions therefore run on concrete bytes',
@@ -547,6 +549,11 @@ OBLIGATIONS = [
        functions=[CH.SSHClientChannel._process_exit_status_request, CH.SSHChannel._process_request,
                   CH.SSHChannel._process_close, CH.SSHChannel._process_eof, ST.SSHReader.read],
        bounds='all 24 orders of {stdout data, stderr data, exit-status, EOF} then CLOSE; status in {0,3,263}; stream buffer limit in {window, 1, 10} bytes (the small ones make the session pause the channel)'),
+    Ob('drain_resume', write_pause,
+       sym=dict(n1=R(0, 3), n2=R(0, 3), w=R(0, 3), a1=R(0, 4), a2=R(0, 6)),
+       shards=dict(hl=[0, 1, 3]), timeout=300,
+       functions=[CH.SSHChannel._pause_resume_writing, CH.SSHChannel.set_write_buffer_limits],
+       bounds='same harness as C08.write_pause for the limits (0,0), (1,0), (3,0) - the "drain() waits until everything is flushed" settings: a paused writer (drain() blocked) is resumed as soon as the buffer has drained to the low-water mark'),
 ]
 
 MANIFEST = dict(
